@@ -20,11 +20,43 @@ class _Sem:
         pass
 
 
+class CoLock:
+    """the handle's mutex as a scheduling point: a writer thread parks when it reaches the lock
+    (`atlock`) and takes it when the schedule lets it go on; if it is still taken then -- a schedule
+    the specification does not contain -- it says so (`blocked`) and tries again when resumed"""
+
+    def __init__(self, ad):
+        self.ad = ad
+        self.real = threading.Lock()
+
+    def acquire(self, blocking=True, timeout=-1):
+        w = self.ad._who()
+        if w is None:
+            return self.real.acquire(blocking, timeout)
+        self.ad.cos[w].yield_('atlock')
+        while not self.real.acquire(False):
+            self.ad.cos[w].yield_('blocked')
+        return True
+
+    def release(self):
+        self.real.release()
+
+    def locked(self):
+        return self.real.locked()
+
+    def __enter__(self):
+        self.acquire()
+        return self
+
+    def __exit__(self, *exc):
+        self.release()
+
+
 class RaceAdapter:
     def reset(self, st):
         self.writers = sorted(st['pc'])
         self.cache = {}
-        self.cnt = {'cb': 0, 'ecb': 0, 'softsig': 0, 'tcb': 0}
+        self.cnt = {'cb': 0, 'ecb': 0, 'softsig': 0, 'tcb': 0, 'tcancel': 0}
         self.hist = []
         self.saw = {w: False for w in self.writers}
         self.look = {w: 0 for w in self.writers}
@@ -32,12 +64,16 @@ class RaceAdapter:
         bp.job_counter = iter(range(1, 100))
         ad = self
 
-        def park():
+        def park(where='incb'):
             # user code: the callback stays where it is until the schedule lets it return
             w = ad._who()
             ad._note()
             if w is not None:
-                ad.cos[w].yield_('incb')
+                ad.cos[w].yield_(where)
+
+        def tcancel(job):
+            ad.cnt['tcancel'] += 1
+            park('intc')
 
         def cb(v):
             ad.cnt['cb'] += 1
@@ -56,8 +92,9 @@ class RaceAdapter:
                 ad.cnt['softsig'] += 1
         bp._kill = kill
         job = bp.ApplyResult(self.cache, cb, error_callback=ecb, timeout_callback=tcb,
-                             soft_timeout=1, timeout=1)
+                             soft_timeout=1, timeout=1, on_timeout_cancel=tcancel)
         job._ack(None, 1000.0, 4242, None)
+        job._mutex = CoLock(self)
         self.job = job
         self._last = (False, id(None))
         self.cos = {}
@@ -159,13 +196,14 @@ class RaceAdapter:
                 co.resume()
             if co.crash is not None:
                 raise co.crash
-            self.pc[w] = 'done' if co.finished else 'incb'
+            self.pc[w] = 'done' if co.finished else co.msg if isinstance(co.msg, str) else 'crashed'
 
     def project(self):
-        holder = [w for w in self.writers if self.pc[w] == 'incb']
+        holder = [w for w in self.writers if self.pc[w] in ('intc', 'incb')]
         return {'pc': dict(self.pc), 'saw': dict(self.saw), 'look': dict(self.look),
                 'mutex': (holder[0] if holder else 'held') if self.job._mutex.locked() else 'none',
-                'softsig': self.cnt['softsig'], 'tcb': self.cnt['tcb'], 'out': self._kind(),
+                'softsig': self.cnt['softsig'], 'tcb': self.cnt['tcb'], 'tcancel': self.cnt['tcancel'],
+                'out': self._kind(),
                 'incache': self.cache.get(self.job._job) is self.job,
                 'cb': self.cnt['cb'], 'ecb': self.cnt['ecb'], 'hist': list(self.hist)}
 
